@@ -211,8 +211,18 @@ class Environment:
         # If event has an exception, run its callback before handle the
         # exception. In this way, the exception could be possibly be handled by
         # event's callback.
+        stop: Optional[StopSimulation] = None
         for callback in callbacks:
-            callback(event)
+            try:
+                callback(event)
+            except StopSimulation as exc:
+                # run(until=event) asked to stop at this event. Waiters that
+                # registered after run() was entered come later in the list
+                # and must still be resumed, so finish the loop first.
+                stop = exc
+
+        if stop is not None:
+            raise stop
 
         if not event._ok and not hasattr(event, '_defused'):
             # The event has failed and has not been defused. Crash the
